@@ -37,6 +37,19 @@ def has_set(v):
     return False
 
 
+def nel_fold(x):
+    """x with every U+0085 in every string replaced by a space (what the YAML reader makes of it)."""
+    if isinstance(x, str):
+        return x.replace("\x85", " ")
+    if isinstance(x, dict):
+        return {k: nel_fold(v) for k, v in x.items()}
+    if isinstance(x, (set, frozenset)):
+        return frozenset(nel_fold(v) for v in x)
+    if isinstance(x, (list, tuple)):
+        return [nel_fold(v) for v in x]
+    return x
+
+
 def nested_constants(obj, path=()):
     """(path in the serialised document, declared constants) for every nested schema object below obj."""
     from pydantic import BaseModel
@@ -87,6 +100,10 @@ def check_instance(cls, obj, acc, tmp: Path, origin, consts=None):
         if back != obj:
             diff = [k for k in obj.__dict__ if obj.__dict__.get(k) != back.__dict__.get(k)]
             k = diff[0] if diff else "?"
+            if form in ("yaml", "yaml-file") and "\\u0085" in j and nel_fold(obj.dict()) == nel_fold(back.dict()) :
+                # one mechanism, recorded as known finding: U+0085 (NEL) is written raw into the YAML text and read back as a line
+                # break, i.e. folded into a space; everything else of the instance is equal
+                return "KNOWN:yaml-nel-folded", f"{name}.{k}: {obj.__dict__.get(k)!r} became {back.__dict__.get(k)!r} via {form}"
             return f"roundtrip-differs:{form}", (f"{name}.{k}: {obj.__dict__.get(k)!r} became {back.__dict__.get(k)!r} via {form}")
         if form == "bytes" and not has_set(obj):
             if bytes(back) != b:
@@ -138,6 +155,10 @@ def run_classes(acc, classes, rng, per, origin, tmp, consts_of=None):
             nfields = len([k for k, v in obj.__dict__.items() if v is not None])
             acc.case([origin, cls.__name__, sorted(cls.__fields__), json.dumps(d, sort_keys=True, default=str)], nontrivial=nfields >= 2)
             r = check_instance(cls, obj, acc, tmp, origin, consts_of.get(cls) if consts_of else None)
+            if r and r[0].startswith("KNOWN:"):
+                acc.violation(r[0][6:], f"{r[1]} [input {json.dumps(d, default=str)[:300]}]",
+                              {"origin": origin, "class": cls.__name__, "input": json.loads(json.dumps(d, default=str))})
+                continue  # (does not end the examination of this class)
             if r:
                 acc.violation(f"{r[0]}:{origin}", f"{r[1]} [input {json.dumps(d, default=str)[:300]}]",
                               {"origin": origin, "class": cls.__name__, "input": json.loads(json.dumps(d, default=str))})
